@@ -124,10 +124,19 @@ let () =
         let had = !ob_mod <> None in
         sem := do_sevent !tbl parse_conf read_file !sem (SStep { ob_ok = (rest <> "0"); ob_mod = md; ob_cv = !ob_cv; ob_bias = !ob_bias });
         if not had then sem := { !sem with sm_mod = None };
+        (* what the model says about the components after the step: flags, and the value as the sum over the enabled ones *)
+        let comp = List.filter_map (fun (n, (c : float cvsem)) ->
+            match c.cs_cvcs, c.cs_data with
+            | Some fl_, Some d when List.length fl_ = List.length d.cd_contrib ->
+              Some (Printf.sprintf "%s:%s:%s:%h" (ocaml_string_of n)
+                      (Stdlib.String.concat "" (List.map (fun b -> if b then "1" else "0") fl_))
+                      (match c.cs_pending with None -> "-" | Some p -> Stdlib.String.concat "" (List.map (fun b -> if b then "1" else "0") p))
+                      (combine (fun a b -> a +. b) 0.0 d.cd_contrib fl_))
+            | _ -> None) !sem.sm_cv in
         ob_mod := None; ob_cv := []; ob_bias := [];
-        Printf.printf "step | %s\n" (show_state !st)
+        Printf.printf "step | %s | %s\n" (show_state !st) (Stdlib.String.concat " " comp)
       | 'O' ->
-        (* OM step energy | ids | masses | charges | pos | af | tf     OV name value af tf active | atoms | grads     OB name energy *)
+        (* OM step energy | ids | masses | charges | pos | af | tf     OV name value af tf active | atoms | grads | component flags | contributions     OB name energy *)
         (match Stdlib.String.split_on_char '|' rest with
          | hd :: parts ->
            (match toks hd, parts with
@@ -137,9 +146,10 @@ let () =
                                md_masses = List.map fl (toks ms); md_charges = List.map fl (toks ch);
                                md_pos = triples (toks pos); md_af = triples (toks af); md_tf = triples (toks tf) };
               print_endline "ok"
-            | ["V"; n; v; af; tf; act], [atoms; grads] ->
+            | ["V"; n; v; af; tf; act], [atoms; grads; flags; contrib] ->
               ob_cv := !ob_cv @ [(cs n, { cd_value = fl v; cd_af = fl af; cd_tf = fl tf; cd_active = (act = "1");
-                                          cd_atoms = List.map (fun t -> z_of_int (int_of_string t)) (toks atoms); cd_grads = triples (toks grads) })];
+                                          cd_atoms = List.map (fun t -> z_of_int (int_of_string t)) (toks atoms); cd_grads = triples (toks grads);
+                                          cd_cvcs = List.map (fun t -> t = "1") (toks flags); cd_contrib = List.map fl (toks contrib) })];
               print_endline "ok"
             | ["B"; n; en], [] -> ob_bias := !ob_bias @ [(cs n, fl en)]; print_endline "ok"
             | _ -> print_endline "?")
